@@ -784,9 +784,14 @@ impl HashColumn {
 		)? {
 			(Some(outcome), _) => Ok(outcome),
 			(None, Some(value_address)) => {
-				// If it was found in an older index we just insert a new entry. Reindex won't
-				// overwrite it.
-				let sub_index = if index.id == tables.index.id { Some(sub_index) } else { None };
+				// If it was found in an older index we insert a new entry and drop the old one:
+				// reindexing would otherwise carry the stale address over into the new index.
+				let sub_index = if index.id == tables.index.id {
+					Some(sub_index)
+				} else {
+					index.write_remove_plan(key, sub_index, log)?;
+					None
+				};
 				tables.index.write_insert_plan(key, value_address, sub_index, log)
 			},
 			(None, None) => {
